@@ -5,19 +5,22 @@ CONFIG = dict(
     drv="drv_c01",
     lean_modules=["MahfModel.Props.C01"],
     namespaces=["MahfModel.Props.C01"],
-    shrink_lists=["ops"],
+    shrink_lists=["ops", "inner"],
     level="proof",
-    rule=("histories of StateRegistry/State operations over 30 operation kinds (insert, remove, take, contains, "
+    rule=("histories of StateRegistry/State statements: 32 registry operation kinds plus State::with_inner_state(body; ok|err) "
+          "with nested bodies (insert, remove, take, contains, "
           "contains_at_top, find, find_mut, get_value, try_get_value, set_value, get_mut, every entry combinator, "
           "occupied/vacant entry methods, into_child, into_parent, parent()/parent_mut() access, try_get_multiple_mut, "
-          "requirements, dump): (1) exhaustive - four prefixes building depth 1..3 with shadowing, followed by every "
-          "sequence of L ops over 2 types x 2 values (quick: L=2 over the full 59-op alphabet and L=3 over a reduced "
-          "23-op alphabet; thorough: L=3 full, L=4 reduced); (2) seeded random histories of length 40..120 over 4 "
+          "requirements, dump, and set_value / try_get_value issued while a shared / exclusive guard on the same type is "
+          "alive): (1) exhaustive - four prefixes building depth 1..3 with shadowing, followed by every "
+          "sequence of L ops over 2 types x 2 values (quick: L=2 over the full 74-statement alphabet and L=3 over a reduced "
+          "33-statement alphabet; thorough: L=3 full, L=4 reduced; the alphabets contain with_inner_state bodies of nesting "
+          "depth <= 2 with ok and err results and the guarded accesses); (2) seeded random histories of length 40..120 over 4 "
           "types (1000 quick / 50000 thorough) biased to shadow -> remove-underneath -> entry-on-shadowed -> pop. "
           "Every history ends with a dump of every scope. A history is non-trivial if it contains a scope push, an "
           "insert and at least one lookup/removal/entry access; distinct = distinct canonical op list."),
     nontrivial=lambda inp: ("(push)" in inp and "(ins " in inp
-                            and re.search(r"\((tryget|get|rem|take|find|set|getmut|ent-|occ-|vac-|parget|multi)", inp) is not None),
+                            and re.search(r"\((tryget|get|rem|take|find|set|getmut|ent-|occ-|vac-|parget|multi|gset|gget|inner)", inp) is not None),
     trusted_base=[
         "HashMap<TypeId, _> represented by an association list keyed by a type index; TypeId distinctness of the "
         "harness types K0..K7 and better_any downcasts (the unwraps after a key hit) are not modelled",
@@ -28,7 +31,8 @@ CONFIG = dict(
 CONFIG.update(
     level_text=("Lean 4 theorems: the code-shaped registry model (chain of association lists with RefCell flags, find + "
                 "index arithmetic, entry resolution, multi-borrow) refines the abstract stack of partial maps for each of "
-                "the 30 operation kinds (step_refines) and hence for every finite history (history_refines, history_refines_from); "
+                "the 32 operation kinds (step_refines) and for with_inner_state statements with ok/err bodies (stmt_refines), hence for "
+                "every finite history (history_refines, history_refines_from, history_refines_stmts); guarded_access_refused; "
                 "stated outright: lookup_innermost (find = first holder; get/remove/set/get_mut/occupied-entry methods act on that "
                 "cell), insert_top_reports_top, remove_innermost_reexposes (only that scope changes; the type then resolves as the "
                 "outer scopes say), absent_is_error_not_invented (18 non-inserting operations leave the registry untouched; the 4 "
